@@ -455,7 +455,17 @@ func c03RemoteFailure(p *Program, r *Report) {
 	}
 }
 
-func c03CacheSound(p *Program, r *Report) {
+func c03CacheSound(p *Program, r *Report) { cacheSound(p, r, false) }
+
+// c19CacheOnlyFound: the strict form — a memoised MISS is a violation too. A reference is resolved before its actor is
+// registered whenever something is sent to it from OnPrelaunch's window (a subscriber that subscribes in OnPrelaunch and an
+// event published before ActorOf registers the context): pinning the dead-lettering mailbox then turns every later event for
+// the subscriber — and the OnLaunch ActorOf sends through the very same reference — into a dead letter, for good. Dead-lettering
+// satisfies C03 as stated, so C03.R7 stays relaxed; C19 (delivery to every current subscriber) and C05 (OnLaunch first) need
+// the strict form.
+func c19CacheOnlyFound(p *Program, r *Report) { cacheSound(p, r, true) }
+
+func cacheSound(p *Program, r *Report, strict bool) {
 	lc := lcOrFail(p, r)
 	if lc == nil {
 		return
@@ -479,7 +489,10 @@ func c03CacheSound(p *Program, r *Report) {
 		return
 	}
 	n := 0
-	const msg = "the mailbox memoised in a reference is the mailbox of the actor context found registered at the reference's path, a dead-lettering mailbox, or the root's own for the root's path — never the mailbox of an actor the reference does not name (mail through the reference would be consumed by that actor)"
+	msg := "the mailbox memoised in a reference is the mailbox of the actor context found registered at the reference's path, a dead-lettering mailbox, or the root's own for the root's path — never the mailbox of an actor the reference does not name (mail through the reference would be consumed by that actor)"
+	if strict {
+		msg = "the mailbox memoised in a reference is the mailbox of the actor context found registered at the reference's path (or the root's own for the root's path) — never the result of a miss: a reference resolved before its actor is registered (sent to from the OnPrelaunch window) would dead-letter every later message, OnLaunch included, although the actor lives"
+	}
 	// evalSite judges one write: in function fn (graph g) at node i, of the mailbox value(s) given by cands
 	evalSite := func(fn *ssa.Function, g *IG, i int, cands func(mc *mbClassifier) ([]mbCand, string)) (bool, string) {
 		// edges on which a registry value was asserted to be an actor context
@@ -503,7 +516,7 @@ func c03CacheSound(p *Program, r *Report) {
 				asserted = append(asserted, ta)
 			}
 		}
-		mc := &mbClassifier{p: p, g: g, lc: lc, ctxE: ctxE, asserted: asserted, ownPath: ownPathEdges(p, g)}
+		mc := &mbClassifier{p: p, g: g, lc: lc, ctxE: ctxE, asserted: asserted, ownPath: ownPathEdges(p, g), strict: strict}
 		cs, why := cands(mc)
 		good := len(cs) > 0 && why == ""
 		for _, cd := range cs {
@@ -790,6 +803,7 @@ func ownPathEdges(p *Program, g *IG) map[edge]bool {
 
 // mbClassifier judges what a mailbox value produced inside the mailbox lookup is.
 type mbClassifier struct {
+	strict   bool // a dead-lettering mailbox is not an acceptable memo
 	p        *Program
 	g        *IG
 	lc       *lifecycle
@@ -869,6 +883,9 @@ func (mc *mbClassifier) classify(v ssa.Value, at int) (bool, string) {
 	if _, isIface := ct.Underlying().(*types.Interface); !isIface {
 		if t := namedOf(ct); t != nil {
 			if enq := p.methodNamed(t, "Enqueue"); enq != nil && len(enq.Params) == 2 && p.emitsDeadLetterFor(enq, 1, 0) {
+				if mc.strict {
+					return false, "a " + t.Obj().Name() + " (dead-lettering): the miss would be pinned in the reference"
+				}
 				return true, "a " + t.Obj().Name() + ", whose Enqueue emits a dead letter wrapping the envelope on every path"
 			}
 		}
